@@ -201,7 +201,7 @@ Section Truncation.
 
   Lemma fault_below k : below (read_at_fault k b) (read_at b).
   Proof.
-    unfold below, read_at_fault. intros off n x H.
+    unfold below, read_at_fault. cbv zeta. intros off n x H.
     destruct (off + n <=? k); [exact H|discriminate].
   Qed.
 
@@ -215,7 +215,7 @@ Section Truncation.
     rewrite covf_toc in Es.
     pose proof (probe_at_data_end c0 cs Es) as Hge.
     apply N.eqb_neq in E0.
-    unfold read_at_fault in Ep.
+    unfold read_at_fault in Ep. cbv zeta in Ep.
     destruct (N.leb_spec (snd (last (c0 :: cs) c0) - 1 + 1) k) as [Hle|Hgt]; [|discriminate].
     lia.
   Qed.
@@ -230,7 +230,7 @@ Section Truncation.
   Lemma read_at_firstn k off n : k <= N.of_nat (length b) ->
     read_at (firstn (N.to_nat k) b) off n = read_at_fault k b off n.
   Proof.
-    intros Hk. unfold read_at_fault, read_at.
+    intros Hk. unfold read_at_fault, read_at. cbv zeta.
     rewrite firstn_length.
     replace (N.of_nat (Nat.min (N.to_nat k) (length b))) with k by lia.
     destruct (N.leb_spec (off + n) k) as [H|H]; [|reflexivity].
